@@ -722,21 +722,56 @@ func Describe(root *ggql.Root, sortMembers bool) (out string) {
 // definition "directive @d(x: Int = 1, y: String) on ...".
 func directiveArgDefaults(def string) (out [][2]string) {
 	i := strings.Index(def, "(")
-	j := strings.Index(def, ") on ")
+	j := strings.LastIndex(def, ") on ")
 	if i < 0 || j < i {
 		return
 	}
-	for _, part := range strings.Split(def[i+1:j], ", ") {
+	// split the argument list at top-level commas (defaults can be lists, input
+	// objects and strings that contain commas themselves)
+	var parts []string
+	depth, inStr, start := 0, false, i+1
+	body := def[:j]
+	for k := i + 1; k < len(body); k++ {
+		c := body[k]
+		switch {
+		case inStr:
+			if c == '\\' {
+				k++
+			} else if c == '"' {
+				inStr = false
+			}
+		case c == '"':
+			inStr = true
+		case c == '[' || c == '{' || c == '(':
+			depth++
+		case c == ']' || c == '}' || c == ')':
+			depth--
+		case c == ',' && depth == 0:
+			parts = append(parts, body[start:k])
+			start = k + 1
+		}
+	}
+	parts = append(parts, body[start:])
+	for _, part := range parts {
+		part = strings.TrimSpace(part)
+		if at := strings.Index(part, " @"); at > 0 && !strings.Contains(part[:at], "\"") {
+			part = part[:at] // directive uses on the argument definition
+		}
 		nv := strings.SplitN(part, " = ", 2)
-		if len(nv) != 2 {
+		name := strings.TrimSpace(strings.SplitN(nv[0], ":", 2)[0])
+		if name == "" {
 			continue
 		}
-		name := strings.SplitN(nv[0], ":", 2)[0]
+		if len(nv) != 2 {
+			// no declared default: an argument that is left out is null
+			out = append(out, [2]string{name, "null"})
+			continue
+		}
 		v, err := ggql.ParseValueString(nv[1])
 		if err != nil {
 			continue
 		}
-		out = append(out, [2]string{strings.TrimSpace(name), CanonLite(canonValue(v))})
+		out = append(out, [2]string{name, CanonLite(canonValue(v))})
 	}
 	return
 }
